@@ -255,7 +255,11 @@ func repeating(symbols []pr.NamedString, value int) (string, bool) {
 	if len(symbols) == 0 {
 		return "", false
 	}
-	return symbol(symbols[(value-1)%len(symbols)]), true
+	index := (value - 1) % len(symbols)
+	if index < 0 { // Go's % truncates toward zero
+		index += len(symbols)
+	}
+	return symbol(symbols[index]), true
 }
 
 // Implement the algorithm for `type: non-repeating`.
